@@ -39,8 +39,8 @@ def prove(name, goal, expect="proved", replay=None, note=None, kind="post", step
                      "steps": steps, "timeout": timeout, "samples": samples, "strong_neg": strong_neg,
                      "optional": optional})
     deps = s.ghost.get("active_hints")
-    if deps and expect == "proved":
-        ob.meta["hint_obs"] = list(deps)
+    if deps:
+        ob.meta["hint_obs"] = list(deps)      # also for canaries: a canary proved under a failed ghost lemma is not vacuity
     s.obligations.append(ob)
     return ob
 
@@ -296,7 +296,13 @@ class Check:
             expect = m.get("expect", "proved")
             if expect == "refuted":
                 if r["status"] == "proved":
-                    vacuous.append(name)
+                    hs = m.get("hints") or []
+                    if any(status.get(h) != "proved" for h in hs):
+                        # a ghost lemma assumed before the canary was NOT proved (it is reported through its dependents): the
+                        # hypotheses of this canary contain a claim that failed, its proof says nothing about the harness
+                        self.notes.append("canary %s proved under a failed ghost lemma: ignored" % name)
+                    else:
+                        vacuous.append(name)
                 continue
             n_expected += 1
             if m.get("role") == "hint":
